@@ -81,7 +81,12 @@ def evaluate(name, props, tier, budget):
         return 2
     rc, o = sh(['git', '-C', '/repo', 'apply', os.path.join(dst, 'patch.diff')])
     if rc != 0:
+        # /repo moved on (later fix: commits): fall back to a 3-way merge of the hunk
+        rc, o = sh(['git', '-C', '/repo', 'apply', '--3way', os.path.join(dst, 'patch.diff')])
+        sh(['git', '-C', '/repo', 'reset', '-q'])
+    if rc != 0:
         print('patch does not apply to /repo: %s' % o)
+        sh(['git', '-C', '/repo', 'checkout', '--', '.'])
         return 2
     res = meta.setdefault('evaluation', {})
     try:
